@@ -42,7 +42,8 @@ def check(prog: Program, tier: str) -> Result:
             "the character ranges of string literals and the edit is control-dependent on a non-overlap test with "
             "them. Sites are keyed by (function, callee, operand) - not by regex text. R11.2 replacement code is re-indented line by line in "
             "_do_rewrite: the recogniser of multi-line literals accepts all 50 spellings of a triple-quoted literal (test expression evaluated "
-            "on every spelling by sa/strexpr.py) and the exempted line indexes cover all continuation lines. Not decided: correctness of the "
+            "on every spelling by sa/strexpr.py) and the exempted line indexes cover all continuation lines. R11.3 a restored literal spelling "
+            "that was edited (prefix swap) is validated again before it replaces a literal. Not decided: correctness of the "
             "literal-aware stages themselves (black's equivalence)."),
         rule_text="instances = text-transformation calls in functions reachable from format_code; non-trivial = operand is the whole module text",
     )
@@ -103,8 +104,67 @@ def check(prog: Program, tier: str) -> Result:
     res.floors["R11.1"] = 8
     _r11_2(prog, res)
     res.floors["R11.2"] = 1
+    _r11_3(prog, res)
+    res.floors["R11.3"] = 1
     res.analysed.update({"transformation_calls": n_calls, "functions_reachable_from_format_code": len(reach)})
     return res
+
+
+# ------------------------------------------------------------------------------------------------ R11.3
+def _r11_3(prog: Program, res: Result) -> None:
+    """Restoring the original spelling of a string literal puts TEXT in place of a literal node.  The text must denote
+    the value of the node it replaces.  The spellings taken from the original source are validated when they are
+    collected (parse + match against Constant(value)); if such a spelling is then EDITED (prefix stripped / added,
+    concatenation, replace), the edited text has to be validated again before it is stored as a replacement -
+    `r'\\n'` with the prefix removed is a different string.  Instance: every `replacements[node] = V` in the
+    restoring functions; obligation: no string surgery on V after its last validation on the way to the store."""
+    SURGERY = {"lstrip", "rstrip", "strip", "replace", "removeprefix", "removesuffix", "lower", "upper", "format", "join"}
+    n = 0
+    for name in ("_substitute_original_strings", "_substitute_original_fstrings"):
+        fn = prog.funcs.get(("processing", name))
+        if fn is None:
+            continue
+        for st in walk_own(fn.node):
+            if not (isinstance(st, ast.Assign) and isinstance(st.targets[0], ast.Subscript) and isinstance(st.targets[0].value, ast.Name)
+                    and "replacement" in st.targets[0].value.id and isinstance(st.value, ast.Name)):
+                continue
+            n += 1
+            v = st.value.id
+            loop = parent(st)
+            while loop is not None and not isinstance(loop, ast.For):
+                loop = parent(loop)
+            scope = loop if loop is not None else fn.node
+            edits = []
+            for a in ast.walk(scope):
+                if isinstance(a, (ast.Assign, ast.AugAssign)) and any(isinstance(t, ast.Name) and t.id == v for t in (a.targets if isinstance(a, ast.Assign) else [a.target])):
+                    val = a.value
+                    uses_self = any(isinstance(x, ast.Name) and x.id == v for x in ast.walk(val))
+                    surgery = isinstance(a, ast.AugAssign) or (uses_self and (isinstance(val, ast.BinOp) or (
+                        isinstance(val, ast.Call) and isinstance(val.func, ast.Attribute) and val.func.attr in SURGERY)))
+                    if surgery and a.lineno < st.lineno:
+                        edits.append(a)
+            if not edits:
+                res.ok("R11.3", fn.loc(st), fn.fq, short(st, 70), f"'{v}' is stored as it was validated (no edit of the spelling in between)")
+                continue
+            last = max(edits, key=lambda a: a.lineno)
+            # a validation of v after the last edit that guards the store: `if not (.. match_template(core.parse(v), ..)): continue`
+            ok = False
+            for i in ast.walk(scope):
+                if isinstance(i, ast.If) and last.lineno < i.lineno <= st.lineno:
+                    t = norm(i.test)
+                    mentions = f"parse({v})" in t and "match_template(" in t
+                    if not mentions:
+                        continue
+                    neg = t.startswith("not ")
+                    leaves = bool(i.body) and isinstance(i.body[-1], (ast.Continue, ast.Return, ast.Break))
+                    if (neg and leaves) or (not neg and st in list(ast.walk(i))):
+                        ok = True
+            res.decide(ok, "R11.3", fn.loc(st), fn.fq, short(st, 70),
+                       f"the edited spelling is validated again after line {last.lineno}" if ok else
+                       f"'{v}' is edited at line {last.lineno} ({short(last, 60)}) after it was validated and stored without another check that it still "
+                       "denotes the value of the literal it replaces: with a raw and a plain spelling in one file, r'\\n' comes back as '\\n'")
+    if n == 0:
+        res.errors.append("R11.3: no literal-restoring store found (anchors processing._substitute_original_strings / _fstrings)")
 
 
 # ------------------------------------------------------------------------------------------------ R11.2
@@ -140,7 +200,34 @@ def _r11_2(prog: Program, res: Result) -> None:
         nloop = next((a for a in anc if isinstance(a, ast.For) and a is not rloop and "walk" in norm(a.iter)), None)
         guards = [a for a in anc if isinstance(a, ast.If) and (nloop is None or a in list(ast.walk(nloop)))]
         # ---- (a) the recogniser
-        if nloop is None:
+        tloop = next((a for a in anc if isinstance(a, ast.For) and a is not rloop and "tokenize." in norm(a.iter)), None)
+        if tloop is not None:
+            # token form: `for token in tokenize.generate_tokens(..): if token.type in <types>:` - the types must be all
+            # token types that carry string contents in the running interpreter
+            import tokenize as _tk
+            need = {"STRING"} | ({"FSTRING_MIDDLE"} if hasattr(_tk, "FSTRING_MIDDLE") else set())
+            tguards = [a for a in anc if isinstance(a, ast.If) and a in list(ast.walk(tloop))]
+            have: Set[str] = set()
+            for g in tguards:
+                exprs = [g.test]
+                for x in ast.walk(g.test):
+                    if isinstance(x, ast.Name):
+                        exprs.extend(d for _, d in assignments(fn, x.id) if d is not None)
+                for e in exprs:
+                    for x in ast.walk(e):
+                        if isinstance(x, ast.Attribute) and isinstance(x.value, ast.Name) and x.value.id == "tokenize":
+                            have.add(x.attr)
+                        if isinstance(x, ast.Call) and isinstance(x.func, ast.Name) and x.func.id == "getattr" and len(x.args) >= 2 \
+                                and norm(x.args[0]) == "tokenize" and isinstance(x.args[1], ast.Constant):
+                            have.add(str(x.args[1].value))
+            if not tguards:
+                res.ok("R11.2", fn.loc(st), fn.fq, "recogniser of multi-line literals", "every multi-line token is exempted (no type test)")
+            else:
+                missing = sorted(need - have)
+                res.decide(not missing, "R11.2", fn.loc(tguards[0]), fn.fq, "recogniser of multi-line literals",
+                           f"every token type that carries string contents is recognised ({sorted(need)})" if not missing else
+                           f"token type(s) {missing} carry string contents in this interpreter but are not exempted: lines beginning inside such a literal are re-indented")
+        elif nloop is None:
             res.undecided("R11.2", fn.loc(st), fn.fq, "recogniser of multi-line literals", "loop over the literal nodes not found")
         else:
             code_var = None
@@ -157,9 +244,10 @@ def _r11_2(prog: Program, res: Result) -> None:
                 res.undecided("R11.2", fn.loc(guards[0]), fn.fq, "recogniser of multi-line literals", "the text of the literal is not taken with get_code")
             else:
                 missed, err = [], None
-                for q in ("\'\'\'", '"""'):
+                for q in ("\'\'\'", '"""', "\'", '"'):
                     for p in STRING_PREFIXES:
-                        env = {code_var: f"{p}{q}a\n  b\nc{q}"}
+                        # triple-quoted literal over three lines / single-quoted literal continued with a backslash
+                        env = {code_var: f"{p}{q}a\n  b\nc{q}" if len(q) == 3 else f"{p}{q}a\\\n  b{q}"}
                         try:
                             for a_ in pre:
                                 try:
@@ -178,8 +266,8 @@ def _r11_2(prog: Program, res: Result) -> None:
                     res.undecided("R11.2", fn.loc(guards[0]), fn.fq, text, f"test not evaluable ({err})")
                 else:
                     res.decide(not missed, "R11.2", fn.loc(guards[0]), fn.fq, "recogniser of multi-line literals",
-                               f"accepts all {2 * len(STRING_PREFIXES)} spellings of a triple-quoted literal" if not missed else
-                               f"{len(missed)} spellings of a triple-quoted literal are not recognised ({', '.join(missed[:8])} ...): their continuation lines "
+                               f"accepts all {4 * len(STRING_PREFIXES)} spellings of a literal that spans lines (triple-quoted, or continued with a backslash)" if not missed else
+                               f"{len(missed)} spellings of a literal that spans lines are not recognised ({', '.join(missed[:8])} ...): their continuation lines "
                                "are re-indented with the code around them, which changes the value of the literal")
         # ---- (b) the exempted lines
         if rloop is None or not isinstance(rloop.target, ast.Name):
@@ -187,6 +275,12 @@ def _r11_2(prog: Program, res: Result) -> None:
             continue
 
         class _Sub(ast.NodeTransformer):
+            def visit_Subscript(self, node):
+                # token.start[0] / token.end[0]: first and last row of a token
+                if isinstance(node.value, ast.Attribute) and node.value.attr in ("start", "end") and isinstance(node.slice, ast.Constant) and node.slice.value == 0:
+                    return ast.copy_location(ast.Name(id="__lineno" if node.value.attr == "start" else "__end", ctx=ast.Load()), node)
+                return self.generic_visit(node)
+
             def visit_Attribute(self, node):
                 if node.attr == "lineno":
                     return ast.copy_location(ast.Name(id="__lineno", ctx=ast.Load()), node)
@@ -318,18 +412,22 @@ def _literal_aware(prog: Program, res: Result, tf: TextFlow, reach) -> None:
 from ..selftest import Variant  # noqa: E402
 
 VARIANTS = [
-    Variant("literal-recogniser-back-to-a-table", "FIRE", "processing",
-            "            quote = node_code.lstrip(\"bBfFrRuU\")[:3]  # Any string prefix, e.g. rb, F, Rf, u\n            if quote in (\"\'\'\'\", \'\"\"\"\') and node_code.endswith(quote):\n",
-            "            if any(\n                node_code.startswith(prefix) and node_code.endswith(prefix[-3:])\n                for prefix in (\"b\'\'\'\", \"r\'\'\'\", \"f\'\'\'\", \"\'\'\'\", \'b\"\"\"\', \'r\"\"\"\', \'f\"\"\"\', \'\"\"\"\')\n            ):\n", "R11.2"),
+    Variant("re-prefixed-spelling-stored-unchecked", "FIRE", "processing",
+            "            if not (\n                core.is_valid_python(most_common_original_formatting)\n                and core.match_template(core.parse(most_common_original_formatting), template)\n            ):\n                continue\n", "", "R11.3"),
+    Variant("literal-recogniser-back-to-the-ast-form", "FIRE", "processing",
+            "    string_token_types = {tokenize.STRING, getattr(tokenize, \"FSTRING_MIDDLE\", tokenize.STRING)}\n    try:\n        for token in tokenize.generate_tokens(io.StringIO(new_code).readline):\n            if token.type in string_token_types:\n                for lineno in range(token.start[0], token.end[0]):\n                    indents[lineno] = 0\n    except (tokenize.TokenError, SyntaxError):\n        pass  # new_code is not necessarily valid python syntax in all cases\n",
+            "    try:\n        new_code_ast = core.parse(new_code)\n    except SyntaxError:\n        pass\n    else:\n        for node in core.walk(new_code_ast, (ast.Constant(value=str), ast.JoinedStr)):\n            node_code = core.get_code(node, new_code)\n            if any(\n                node_code.startswith(prefix) and node_code.endswith(prefix[-3:])\n                for prefix in (\"b\'\'\'\", \"r\'\'\'\", \"f\'\'\'\", \"\'\'\'\", \'b\"\"\"\', \'r\"\"\"\', \'f\"\"\"\', \'\"\"\"\')\n            ):\n                for lineno in range(node.lineno, node.end_lineno):\n                    indents[lineno] = 0\n", "R11.2"),
+    Variant("literal-recogniser-forgets-fstring-tokens", "FIRE", "processing",
+            "    string_token_types = {tokenize.STRING, getattr(tokenize, \"FSTRING_MIDDLE\", tokenize.STRING)}\n", "    string_token_types = {tokenize.STRING}\n", "R11.2"),
     Variant("literal-last-line-not-exempted", "FIRE", "processing",
-            "                for lineno in range(node.lineno, node.end_lineno):\n                    indents[lineno] = 0\n",
-            "                for lineno in range(node.lineno + 1, node.end_lineno):\n                    indents[lineno - 1] = 0\n", "R11.2"),
-    Variant("literal-recogniser-lowercased", "SILENT", "processing",
-            "            quote = node_code.lstrip(\"bBfFrRuU\")[:3]  # Any string prefix, e.g. rb, F, Rf, u\n",
-            "            quote = node_code.lower().lstrip(\"bfru\")[:3]\n"),
+            "                for lineno in range(token.start[0], token.end[0]):\n                    indents[lineno] = 0\n",
+            "                for lineno in range(token.start[0] + 1, token.end[0]):\n                    indents[lineno - 1] = 0\n", "R11.2"),
     Variant("literal-lines-zero-based-loop", "SILENT", "processing",
-            "                for lineno in range(node.lineno, node.end_lineno):\n                    indents[lineno] = 0\n",
-            "                for lineno in range(node.lineno + 1, node.end_lineno + 1):\n                    indents[lineno - 1] = 0\n"),
+            "                for lineno in range(token.start[0], token.end[0]):\n                    indents[lineno] = 0\n",
+            "                for lineno in range(token.start[0] + 1, token.end[0] + 1):\n                    indents[lineno - 1] = 0\n"),
+    Variant("literal-every-multi-line-token-exempted", "SILENT", "processing",
+            "            if token.type in string_token_types:\n                for lineno in range(token.start[0], token.end[0]):\n                    indents[lineno] = 0\n",
+            "            for lineno in range(token.start[0], token.end[0]):\n                indents[lineno] = 0\n"),
     Variant("new-whole-text-replace", "FIRE", "main", "    source = fixes.sort_imports(source)\n\n    source = fixes.fix_line_lengths", "    source = fixes.sort_imports(source)\n    source = source.replace(\"\\t\", \"    \")\n\n    source = fixes.fix_line_lengths", "R11.1", "str.replace"),
     Variant("new-regex-stage-in-helper", "FIRE", "fixes",
             "def fix_too_many_blank_lines(source: str) -> str:\n", "def _strip_form_feeds(source: str) -> str:\n    return re.sub(r\"\\f\", \"\", source)\n\n\ndef fix_too_many_blank_lines(source: str) -> str:\n    source = _strip_form_feeds(source)\n", "R11.1", "_strip_form_feeds"),
